@@ -71,7 +71,9 @@ impl TokenLog for BloomTokenLog {
         let state = &mut *guard;
 
         // calculate how many periods past period 1 the token expires
-        let expires_at = issued + lifetime;
+        let Some(expires_at) = issued.checked_add(lifetime) else {
+            return Err(TokenReuseError);
+        };
         let Ok(periods_forward) = expires_at
             .duration_since(state.period_1_start)
             .map(|duration| duration.as_nanos() / lifetime.as_nanos())
